@@ -45,16 +45,45 @@ def run(rep):
     rep.describe("CFG-ITEMS", "item tables (types, fields, signatures, trait impls) are identical in both builds")
     d = cfgdiff.diff(A, C)
     rep.check(not d["only_a"] and not d["only_b"], "CFG-ONE-FN", "CFG-ONE-FN/fn-set", "crate", "same function set in both builds (%d functions)" % d["common"], "only A %s only C %s" % (d["only_a"][:3], d["only_b"][:3]))
-    rep.check(d["changed"] == [IDENT_FN], "CFG-ONE-FN", "CFG-ONE-FN/changed", "crate", "exactly into_identifier differs", str(d["changed"][:6]))
+    # into_identifier and the private helpers that only it (transitively) calls: one unit as far as the builds are concerned
+    def ident_unit(Fx):
+        callers = {}
+        for nm, f in Fx.fns.items():
+            if f.thir is None:
+                continue
+            for x in facts.walk(f.thir["body"]):
+                if x.get("k") == "Call" and x.get("local") and x.get("fn") in Fx.fns:
+                    callers.setdefault(x["fn"], set()).add(nm.split("::{closure#")[0])
+        unit = {IDENT_FN}
+        changed_ = True
+        while changed_:
+            changed_ = False
+            for g, cs in callers.items():
+                if g not in unit and cs and cs <= unit and not facts.is_anchor(g):
+                    unit.add(g)
+                    changed_ = True
+        return unit
+    unit = ident_unit(A) | ident_unit(C)
+    in_unit = lambda nm: nm.split("::{closure#")[0] in unit
+    rep.check(bool(d["changed"]) and all(in_unit(x) for x in d["changed"]), "CFG-ONE-FN", "CFG-ONE-FN/changed", "crate", "only into_identifier (with the private helpers only it calls) differs", str(d["changed"][:6]))
     fa, fc = A.fn(IDENT_FN), C.fn(IDENT_FN)
     if fa is None or fc is None:
         rep.lost("CFG-ONE-LEAF", "CFG/anchor", "into_identifier in both builds")
         return
-    diffs = cfgdiff.leaf_diffs(fa.thir["body"], fc.thir["body"])
+    diffs = []
+    for nm in d["changed"]:
+        if nm in A.fns and nm in C.fns and A.fns[nm].thir is not None and C.fns[nm].thir is not None:
+            diffs += [(nm + p_, a_, b_) for p_, a_, b_ in cfgdiff.leaf_diffs(A.fns[nm].thir["body"], C.fns[nm].thir["body"])]
+    leaf_fn = A.fns.get(d["changed"][0]) if len(d["changed"]) == 1 else fa
+    if leaf_fn is not None and len(diffs) == 1:
+        diffs = [(diffs[0][0][len(d["changed"][0]):], diffs[0][1], diffs[0][2])]
+        fa_leaf = leaf_fn
+    else:
+        fa_leaf = fa
     ok = len(diffs) == 1 and diffs[0][1] == "bool:false" and diffs[0][2] == "bool:true" and diffs[0][0].endswith("/v")
     rep.check(ok, "CFG-ONE-LEAF", "CFG-ONE-LEAF/literal", fa.sp, "one differing leaf: bool false (default) vs true (ignore_case)", str(diffs[:4]))
     if ok:
-        node = cfgdiff.node_at(fa.thir["body"], diffs[0][0][:-2])
+        node = cfgdiff.node_at(fa_leaf.thir["body"], diffs[0][0][:-2])
         rep.check(any("cfg" in e for e in (node.get("exp") or [])), "CFG-ONE-LEAF", "CFG-ONE-LEAF/from-cfg", node["sp"], "the literal is the expansion of cfg!(..)", str(node.get("exp")))
     # head shape (checked on both builds' normalised bodies)
     for name, f, val in (("A", fa, False), ("C", fc, True)):
@@ -122,7 +151,7 @@ def run(rep):
         import json
         return json.dumps(cfgdiff._strip([{"t": b["term"].get("k"), "fn": b["term"].get("fn"), "n": len(b["stmts"])} for b in f.mir["blocks"]])) if f.mir else None
     mchanged = [n for n in A.fns if n in C.fns and mir_fp(A.fns[n]) != mir_fp(C.fns[n])]
-    rep.check(set(mchanged) <= {IDENT_FN}, "CFG-ONE-FN", "CFG-ONE-FN/mir", "crate", "MIR skeletons differ at most in into_identifier", str(mchanged[:5]))
+    rep.check(all(in_unit(x) for x in mchanged), "CFG-ONE-FN", "CFG-ONE-FN/mir", "crate", "MIR skeletons differ at most in into_identifier (and its private helpers)", str(mchanged[:5]))
     if rep.tier == "thorough":
         # every other pair of configurations that differ only by ignore_case
         allc = facts.all_configs()
@@ -134,7 +163,7 @@ def run(rep):
             try:
                 X, Y = facts.load(name), facts.load(other)
                 dd = cfgdiff.diff(X, Y)
-                rep.check(dd["changed"] == [IDENT_FN] and not dd["only_a"] and not dd["only_b"], "CFG-ONE-FN", "CFG-ONE-FN/pair/%s" % (feats or "default"), "crate",
+                rep.check(bool(dd["changed"]) and all(in_unit(x) for x in dd["changed"]) and not dd["only_a"] and not dd["only_b"], "CFG-ONE-FN", "CFG-ONE-FN/pair/%s" % (feats or "default"), "crate",
                           "features {%s} vs +ignore_case differ only in into_identifier" % feats, str(dd["changed"][:4]))
                 rep.configs.append("%s vs %s" % (feats or "default", allc[other]))
             except facts.BuildError as e:
@@ -192,7 +221,27 @@ def run(rep):
             occ = sum(1 for i in rep.instances if i.key.startswith("CFG-FLAG-READS/%s#" % name))
             rep.check(okr, "CFG-FLAG-READS", "CFG-FLAG-READS/%s#%d" % (name, occ), n["sp"], "the case flag is consulted only for a string pattern", show(path[-1])[:80] if path else "")
     rep.check(nreads >= 10, "CFG-FLAG-READS", "CFG-FLAG-READS/sites", "src/parser.rs", "reads of Identifier.ignore_case found", str(nreads))
-    rep.floor("CFG-HEAD", 8)
+    # both builds against the one pattern syntax: the default build reads `iP` exactly as the ignore_case build reads `P`
+    import core as _core
+    import identmodel as _im
+    rep.describe("IDENT-MODEL", "into_identifier of each build evaluated over the probe strings: default build with the `i` prefix convention, ignore_case build with every pattern insensitive")
+    both_ok = True
+    for cfgname, flag in (("A", False), ("C", True)):
+        try:
+            Fc = facts.load(cfgname)
+            rows_, un_ = _im.evaluate(Fc, flag)
+        except facts.BuildError as e:
+            rows_, un_ = None, "build failed"
+        if rows_ is None:
+            both_ok = False
+            rep.note("pattern-syntax model not applicable for build %s (%s); structural rules decide" % (cfgname, un_))
+            continue
+        for probe, want, got, agree in rows_:
+            both_ok = both_ok and agree
+            rep.check(agree, "IDENT-MODEL", "IDENT-MODEL/%s/%s" % ("ignore_case" if flag else "default", probe if probe else "<empty>"), "src/identifier.rs",
+                      "pattern %r is read as documented in the %s build" % (probe, "ignore_case" if flag else "default"), None if agree else "expected %r, the body yields %r" % (want, got))
+    if not _core.model_decides(rep, both_ok, {"CFG-HEAD"}, "the head of into_identifier is decided by the model of both builds"):
+        rep.floor("CFG-HEAD", 8)
     rep.floor("CFG-ITEMS", 5)
     rep.exhaustive = True
     rep.assumptions.append("direct Identifier{ignore_case:false,..} constructions for numbers/booleans under str() are identical in both builds (they are outside into_identifier, hence covered by CFG-ONE-FN)")
